@@ -25,6 +25,7 @@ RULE = ("One evaluation = one seeded execution of 2-3 real clients driven by "
         "non-trivial runs; the evidence also counts the distinct (machine, "
         "state, input) transitions reached via the machines' own trace hooks.")
 RULE += (' The words of an interactive code entry may be entered after the wormhole closed or failed under the prompt.')
+RULE += (" A when_wordlist_is_available() Deferred's callback calls back into the library (completions, choose_words or close).")
 LEVEL_TEXT = ("Seeded exploration of the composed client (13 mailbox machines "
               "+ Dilator) for reachable-but-undeclared (state, input) pairs. "
               "Gating configuration generates only calls whose legality the "
